@@ -58,6 +58,7 @@ SCENARIOS = [
     ("asset-add-vs-action", "C,E,O1|J1,V1.1.100|J1", [1, 1, 2, 3], "asset add by the owner against an action set by another member"),
     ("comp-delete-vs-comp-update", "C,E,T1,A1.1,S1,G1,D1.1|J1,S1,G1,U1.1|J1,S1,G1", [1, 1, 1, 1, 2, 3, 1, 1, 2, 2, 3, 3],
      "component delete against an update of it"),
+    ("switch-vs-entity-add", "C,E|C|J1,J2", [1, 2, 3], "a member moves to another session against an entity add in the session it leaves"),
     ("comp-update-vs-list", "C,E,T1,A1.1,S1,G1,U1.1|J1,S1,G1|J1,S1,G1", [1, 1, 1, 1, 2, 3, 1, 1, 2, 3, 3], "component update against a list by a subscriber"),
 ]
 # scenarios that coq/ConcView.v models (scenario_of): every execution is compared with the model under the same schedule
